@@ -1,6 +1,7 @@
 #!/usr/bin/env python3
-"""Writes the per-property 'as built' tables of DESIGN.md §11 from checks.json, the evidence files, known_findings.json and seeded/*/meta.json."""
-import json,glob,os,re
+"""Regenerates the generated blocks of DESIGN.md §11 (summary of findings and seeds; per-property rule tables)
+from checks.json, the evidence files, known_findings.json, seeded/*/meta.json and /repo's git log."""
+import json,glob,os,re,subprocess
 os.chdir('/verif')
 checks={c['id']:c for c in json.load(open('checks.json'))}
 kf=json.load(open('known_findings.json'))
@@ -9,27 +10,44 @@ for f in kf['fixed']:
     m=re.match(r'fixed: property=(C\d+) (.*)',f)
     fixed.setdefault(m.group(1),[]).append(m.group(2))
 seeds={}
+allseeds=[]
 for mp in sorted(glob.glob('seeded/*/meta.json')):
-    m=json.load(open(mp)); seeds.setdefault(m['property'],[]).append((os.path.basename(os.path.dirname(mp)),m))
-out=[]
+    m=json.load(open(mp)); n=os.path.basename(os.path.dirname(mp))
+    seeds.setdefault(m['property'],[]).append((n,m)); allseeds.append((n,m))
+nfix=int(subprocess.run("git -C /repo log --oneline | grep -c ' fix:'",shell=True,capture_output=True,text=True).stdout.strip() or 0)
+caught=[n for n,m in allseeds if not m['detected_by'].startswith('not detect')]
+added=[n for n,m in allseeds if 'added for this seed' in m['detected_by']]
+missed=[(n,m) for n,m in allseeds if m['detected_by'].startswith('not detect')]
+summ=[]
+summ.append(f"* `fix:` commits in /repo: **{nfix}**; entries in `known_findings.json`: {len(kf['fixed'])} fixed, {len(kf.get('open',[]))} open.\n")
+summ.append(f"* Seeded changes kept: **{len(allseeds)}**; caught: **{len(caught)}** ({len(caught)-len(added)} by rules built from the design, {len(added)} after a rule was added because the seed was missed); recorded as not detected: **{len(missed)}**.\n")
+summ.append("* Rules added because a seed was missed: "+", ".join(f"`{n}` ({re.search(r'R-C[0-9]+-[0-9]+',m['detected_by']).group(0)})" for n,m in allseeds if n in added)+".\n")
+summ.append("* Not detected (value-level, with the reason recorded in `meta.json`): "+"; ".join(f"`{n}`" for n,m in missed)+".\n")
+per=[]
 for pid in sorted(checks):
     ev=json.load(open(f'evidence/{pid}.json'))
     cov=ev['coverage']
-    out.append(f"#### {pid}\n\n")
-    out.append("| rule | instances | requires |\n|---|---|---|\n")
+    per.append(f"#### {pid}\n\n")
+    per.append("| rule | instances | requires |\n|---|---|---|\n")
     for r in cov['rules']:
         if r['id']=='selftest': continue
-        out.append(f"| {r['id']} | {r['instances']} | {r['text']} |\n")
-    n=cov['obligations']
-    out.append(f"\nCurrent tree: {n} obligations — {cov['discharged']} discharged, {cov['excepted']} excepted by name (reason in the checker source and in the evidence file), {cov['info']} info, 0 violated.\n")
+        per.append(f"| {r['id']} | {r['instances']} | {r['text']} |\n")
+    per.append(f"\nCurrent tree: {cov['obligations']} obligations — {cov['discharged']} discharged, {cov['excepted']} excepted by name (reason in the checker source and in the evidence file), {cov['info']} info, 0 violated.\n")
     if pid in fixed:
-        out.append("\nGenuine defects found by the first run and repaired (`fix:` commits in /repo; the check fires on the commit before each):\n\n")
-        for f in fixed[pid]: out.append(f"* {f}\n")
+        per.append("\nGenuine defects found and repaired (`fix:` commits in /repo; the check fires on the commit before each):\n\n")
+        for f in fixed[pid]: per.append(f"* {f}\n")
     if pid in seeds:
-        out.append("\nSeeded changes (each confirmed by us: builds, pinned suite passes, demonstration fails with the change and passes without):\n\n")
+        per.append("\nSeeded changes (each confirmed by us):\n\n")
         for n_,m in seeds[pid]:
-            caught = not m['detected_by'].startswith('not detected') and m['detected_by']!='pending'
-            out.append(f"* `{n_}` — manifests with: {m['needs_to_manifest']}. **{'Caught' if caught else 'Not caught'}** — {m['detected_by']}\n")
-    out.append("\n")
-open('/tmp/design_built.md','w').write(''.join(out))
-print(len(''.join(out).split('\n')),'lines')
+            ok = not m['detected_by'].startswith('not detect')
+            per.append(f"* `{n_}` — manifests with: {m['needs_to_manifest']}. **{'Caught' if ok else 'Not caught'}** — {m['detected_by']}\n")
+    per.append("\n")
+s=open('DESIGN.md').read()
+def splice(s,name,body):
+    a=f'<!-- GENERATED:{name} (tools/gen_design_results.py) -->\n'; b=f'<!-- /GENERATED:{name} -->'
+    i=s.index(a)+len(a); j=s.index(b)
+    return s[:i]+body+s[j:]
+s=splice(s,'summary',''.join(summ))
+s=splice(s,'per-property',''.join(per))
+open('DESIGN.md','w').write(s)
+print('DESIGN.md regenerated:',nfix,'fixes,',len(allseeds),'seeds,',len(caught),'caught')
